@@ -91,32 +91,49 @@ func solveQueryL(q string, logic string, quick time.Duration, full time.Duration
 	queryMu.Unlock()
 	file := filepath.Join(tmpDir, fmt.Sprintf("q%d.smt2", id))
 	os.WriteFile(file, []byte(q), 0o644)
-	os.WriteFile(file+".cvc5", []byte("(set-option :produce-models true)\n(set-logic "+logic+")\n"+q), 0o644)
+	// cvc5 is used as a prover only: with model production enabled it rejects
+	// some array terms ("write-chains connecting two different constant
+	// arrays"); models come from z3.
+	qc := q
+	if i := strings.Index(qc, "(get-value"); i >= 0 {
+		qc = qc[:i]
+	}
+	os.WriteFile(file+".cvc5", []byte("(set-logic "+logic+")\n"+qc), 0o644)
 	defer os.Remove(file)
 	defer os.Remove(file + ".cvc5")
 	start := time.Now()
 	ctx := context.Background()
-	r := runSolver(ctx, "z3-new", file, quick)
-	if r.status == "sat" || r.status == "unsat" {
+	// stage 1: z3 (short) and cvc5 side by side; stage 2: all three, full time
+	race := func(names []string, tmo []time.Duration) (solverRes, []string, bool) {
+		cctx, cancel := context.WithCancel(ctx)
+		defer cancel()
+		ch := make(chan solverRes, len(names))
+		for i, n := range names {
+			go func(n string, d time.Duration) { ch <- runSolver(cctx, n, file, d) }(n, tmo[i])
+		}
+		var outs []string
+		var last solverRes
+		for range names {
+			x := <-ch
+			if x.status == "sat" || x.status == "unsat" {
+				x.secs = time.Since(start).Seconds()
+				return x, nil, true
+			}
+			outs = append(outs, x.solver+": "+strings.TrimSpace(firstLines(x.out, 3)))
+			last = x
+		}
+		return last, outs, false
+	}
+	short := quick * 3
+	if short > full {
+		short = full
+	}
+	if r, _, ok := race([]string{"z3-new", "cvc5"}, []time.Duration{quick, short}); ok {
 		return r
 	}
-	cctx, cancel := context.WithCancel(ctx)
-	defer cancel()
-	ch := make(chan solverRes, 3)
-	names := []string{"z3-new", "cvc5", "z3"}
-	for _, n := range names {
-		go func(n string) { ch <- runSolver(cctx, n, file, full) }(n)
-	}
-	var last solverRes
-	outs := []string{}
-	for range names {
-		x := <-ch
-		if x.status == "sat" || x.status == "unsat" {
-			x.secs = time.Since(start).Seconds()
-			return x
-		}
-		outs = append(outs, x.solver+": "+strings.TrimSpace(firstLines(x.out, 3)))
-		last = x
+	last, outs, ok := race([]string{"z3-new", "cvc5", "z3"}, []time.Duration{full, full, full})
+	if ok {
+		return last
 	}
 	st := "unknown"
 	if last.status == "timeout" {
